@@ -56,11 +56,15 @@ class MachineryError(Exception):
 
 
 class SeededUrandom:
-    def __init__(self, seed):
+    def __init__(self, seed, collide=False):
         self.rng = random.Random(seed)
+        self.collide = collide      # value files share one sub-directory (the first two bytes name it)
 
     def __call__(self, n):
-        return bytes(self.rng.getrandbits(8) for _ in range(n))
+        b = bytes(self.rng.getrandbits(8) for _ in range(n))
+        if self.collide and n >= 4:
+            b = b'\xab\xcd' + b[2:]
+        return b
 
     def install(self):
         os.urandom = self
